@@ -937,6 +937,12 @@ def normalize_params(sig, body, stats, byref=False):
         pat, ty = ps[:cut].strip(), ps[cut + 1:].strip()
         if re.match(r"^(mut\s+)?[A-Za-z]\w*$", pat) or re.match(r"^_\w+$", pat):
             new.append(prm)
+            # a shared handle taken by value: the real MutRc/MutArc mutate through `&self`, the stand-ins
+            # through `&mut self`; the binding is re-bound mutably so that a body that writes through a
+            # by-value handle parameter still type-checks (stand-in artefact, not a change of the code)
+            if re.match(r"^[A-Za-z]\w*$", pat) and not ty.startswith("&") and re.search(r"\b(MutRc|MutArc|Subscriber(Threads)?|FlagCell)\b", ty) \
+                    and re.search(r"\b%s\s*\.\s*rc_deref_mut\s*\(" % re.escape(pat), body):
+                lets.append("\n    let mut %s = %s;" % (pat, pat))
             continue
         nm = "arg_%d" % k
         if byref and pat.startswith("(") and ty.startswith("("):
@@ -1115,6 +1121,14 @@ def process_fn(fn, spec, handle, stats, canary):
                 if k_ is not None:
                     inv2 = inv2[:k_ + 1] + ["        /*BORROWPROBE %s.%d %s*/ (%s).1 == (%s).1," % (name, ordinal, ptags or "-", place, place)] + inv2[k_ + 1:]
             body = body[:j] + "\n" + "\n".join(inv2) + "\n" + body[j:]
+    # an index loop produced by rule R9 that carries no loop contract (the code gained a loop the contracts
+    # do not know) gets its obvious measure, so that the function is still decided by its postcondition
+    def _default_measure(m_):
+        hdr = m_.group(0)
+        if re.search(r"\b(invariant|decreases)\b", hdr):
+            return hdr
+        return hdr[:-1] + "\n      decreases %s.len() - i_,\n{" % m_.group(1)
+    body = re.sub(r"while\s*/\*R9:E=(.*?);X=.*?\*/[^{]*\{", _default_measure, body)
     clauses = list(spec.fn.get(name, []))
     if canary and (clauses or name in spec.fn) and name not in spec.trusted and name not in spec.canary_skip:
         # vacuity canary: the entry of every contracted function must be reachable, i.e. its
